@@ -72,6 +72,15 @@ def lifter_trees(w):
             for c in list(range(32)) + [0x20, 0x29, 0x80, 0xff]:
                 for cf in (0, 1):
                     out.append(g.OP(op, a, g.I(8, c), g.I(1, cf)))
+    if w in (1, 8, 16):
+        # a count held in a wider type than the shifted value (flags shifted by byte counts, al shifted by a dword):
+        # counts at and beyond the value's width and beyond 2^width
+        for op in ('<<', '>>', 'a>>'):
+            for cw in (8, 32):
+                if cw > w:
+                    for c in sorted(set([0, 1, 2, w - 1, w, w + 1, 1 << w, (1 << w) + 1, (1 << cw) - 1])):
+                        if 0 <= c < (1 << cw):
+                            out.append(g.OP(op, a, g.I(cw, c)))
     if w == 16:
         for op in ('umul16_lo', 'umul16_hi', 'imul16_lo', 'imul16_hi'):
             out.append(g.OP(op, a, b))
